@@ -556,10 +556,26 @@ type PkgSpec struct {
 	Funcs   map[string]*FuncSpec
 	Preds   map[string]*Pred
 	Regexps map[string][]*CExpr // global regexp variable -> assumed facts over s and match(s)
+	Ghosts  map[string]*Ghost
+	Axioms  []*Axiom
+}
+
+// Ghost: an uninterpreted specification function that may read heap fields (passed as extra arguments).
+type Ghost struct {
+	Name   string
+	Params []Binder
+	Result string   // Go type text
+	Reads  []string // heap keys as written ("Node.Name")
+}
+
+type Axiom struct {
+	Label string
+	Expr  *CExpr
+	Src   string
 }
 
 var clauseKeywords = map[string]bool{"func": true, "pred": true, "returns": true, "requires": true, "ensures": true,
-	"invariant": true, "decreases": true, "modifies": true, "loop": true, "pure": true, "trusted": true, "end": true, "regexp": true}
+	"invariant": true, "decreases": true, "modifies": true, "loop": true, "pure": true, "trusted": true, "end": true, "regexp": true, "ghost": true, "axiom": true}
 
 // collectContractLines extracts the "//@" lines of a file, joining continuation lines.
 func collectContractLines(f *ast.File) []string {
@@ -620,7 +636,7 @@ func parseLabelTags(rest string) (label string, tags []string, expr string) {
 }
 
 func parsePkgSpec(pkgName string, files []*ast.File, fileNames []string) (*PkgSpec, error) {
-	ps := &PkgSpec{Funcs: map[string]*FuncSpec{}, Preds: map[string]*Pred{}, Regexps: map[string][]*CExpr{}}
+	ps := &PkgSpec{Funcs: map[string]*FuncSpec{}, Preds: map[string]*Pred{}, Regexps: map[string][]*CExpr{}, Ghosts: map[string]*Ghost{}}
 	for fi, f := range files {
 		lines := collectContractLines(f)
 		var cur *FuncSpec
@@ -656,6 +672,45 @@ func parsePkgSpec(pkgName string, files []*ast.File, fileNames []string) (*PkgSp
 					return nil, fmt.Errorf("%s: pred %s: %v", fileNames[fi], name, err)
 				}
 				ps.Preds[name] = &Pred{Name: name, Params: params, Body: body}
+				cur = nil
+			case kw == "ghost":
+				// ghost name(a T, b U) R reads X.f, Y.g
+				i := strings.Index(rest, "(")
+				j := strings.Index(rest, ")")
+				if i < 0 || j < i {
+					return nil, fmt.Errorf("%s: bad ghost: %s", fileNames[fi], l)
+				}
+				gh := &Ghost{Name: strings.TrimSpace(rest[:i])}
+				for _, p := range splitTopLevel(rest[i+1:j], ',') {
+					p = strings.TrimSpace(p)
+					if p == "" {
+						continue
+					}
+					f := strings.SplitN(p, " ", 2)
+					if len(f) != 2 {
+						return nil, fmt.Errorf("%s: ghost %s: parameter needs a type: %s", fileNames[fi], gh.Name, p)
+					}
+					gh.Params = append(gh.Params, Binder{f[0], strings.TrimSpace(f[1])})
+				}
+				tail := strings.TrimSpace(rest[j+1:])
+				if k := strings.Index(tail, "reads"); k >= 0 {
+					for _, r := range strings.Split(tail[k+5:], ",") {
+						if r = strings.TrimSpace(r); r != "" {
+							gh.Reads = append(gh.Reads, r)
+						}
+					}
+					tail = strings.TrimSpace(tail[:k])
+				}
+				gh.Result = tail
+				ps.Ghosts[gh.Name] = gh
+				cur = nil
+			case kw == "axiom":
+				label, _, es := parseLabelTags(rest)
+				e, err := parseCExpr(es)
+				if err != nil {
+					return nil, fmt.Errorf("%s: axiom %s: %v", fileNames[fi], label, err)
+				}
+				ps.Axioms = append(ps.Axioms, &Axiom{Label: label, Expr: e, Src: es})
 				cur = nil
 			case kw == "regexp":
 				// regexp sha1Regexp: match(s) ==> len(s) >= 40
